@@ -64,7 +64,8 @@ def workF : Nat → Re → List Nat → Nat
   | _, unsupported, _ => 1
 termination_by f r _ => (f, sizeOf r)
 
-def work (r : Re) (s : List Nat) : Nat := workF s.length r s
+/-- fuel `s.length + 1` is enough for every visit, the leaf visit of `star` at the empty string included -/
+def work (r : Re) (s : List Nat) : Nat := workF (s.length + 1) r s
 
 /-- `re.match`: the first success, as the number of characters consumed -/
 def matchLen (r : Re) (s : List Nat) : Option Nat := (runs r s).head?.map fun t => s.length - t.length
